@@ -222,7 +222,14 @@ def enumerate_cases(tier):
                                 o["x"] = [10 * (j + 1) + 1, 10 * (j + 1)]
                             others.append(o)
                         yield "join-align-grid", {"op": op, "ds": ds3, "dsdims": ["x", "y", "z"], "dim": "x",
-                                                  "p": {"others": others, "align": True, "keys": None, "sort": sort}}
+                                                  "p": {"others": others, "align": True, "keys": None, "sort": sort, "reorder": n == 3}}
+    # the same variables inserted in another order in the later datasets (variables are matched by name), without alignment
+    two = {"vars": [["v0", {"dims": ["x"], "labels": [[3, 1]], "vk": "f", "base": 0, "attrs": {}}], ["v1", {"dims": ["x"], "labels": [[3, 1]], "vk": "f", "base": 40, "attrs": {}}],
+                    ["v2", {"dims": ["x", "y"], "labels": [[3, 1], ["a", "b"]], "vk": "i", "base": 70, "attrs": {}}]], "attrs": dict(DS_ATTRS)}
+    for op in ("stack_ds", "concatenate_ds"):
+        for n in (2, 3):
+            others = [({"x": [10 * (j + 1) + 1, 10 * (j + 1)]} if op == "concatenate_ds" else {}) for j in range(n - 1)]
+            yield "join-align-grid", {"op": op, "ds": two, "dsdims": ["x", "y"], "dim": "x", "p": {"others": others, "align": False, "keys": None, "sort": False, "reorder": True}}
     # Dataset op Dataset where a variable is laid out differently in the second dataset: square shapes x every subset of
     # {2-d variable transposed, 1-d variable along the other dimension} x which variable comes first x operator
     for labs in ([3, 1, 2], [1, 2], ["b", "a"]):
